@@ -1418,7 +1418,7 @@ def check_separators(tier, rng):
 
 
 # ====================================================================================================== check 5: contexts
-DEEP_LIMIT = 5.0
+DEEP_LIMIT = 3.0
 MALFORMED = ['=1 2', '=1+', '=1+2)', '=(1+2', '=SUM(1,2) 4', '=A1 B1', '=IF(A1>0,1,2,4)', '=1,', '=1%%', '=SUM(1,2)+', '="a" "b"',
              '=DAY(D1,2)', '=TODAY(1)', '=1**2']
 
@@ -1576,12 +1576,15 @@ def ctx_cases(tier):
         cases.append({'kind': 'long', 'n': n, 'key': 'C05.long_formula'})
         cases.append({'kind': 'long', 'n': n, 'tail': ')', 'key': 'C05.long_formula'})
         cases.append({'kind': 'long', 'n': n, 'tail': ' 1', 'entry': True, 'key': 'C05.long_formula'})
-    for kind, ns in (('nest', (1, 2, 3, 4, 5, 6, 7, 8, 12)), ('parens', (1, 2, 4, 6, 8, 10, 12, 14, 16, 20)), ('longtext', (10, 51, 300, 5000))):
+    deep = (('nest', (1, 2, 3, 4, 5, 6) + ((8, 64) if tier == 'thorough' else ())),
+            ('parens', (1, 2, 4, 8, 12, 14, 16) + ((20, 64) if tier == 'thorough' else ())), ('longtext', (10, 51, 300, 5000)))
+    for kind, ns in deep:
         for n in ns:
             cases.append({'kind': kind, 'n': n, 'key': 'C05.deep_formula.' + kind})
             cases.append({'kind': kind, 'n': n, 'tail': ')', 'entry': True, 'key': 'C05.deep_formula.' + kind})
-            cases.append({'kind': kind, 'n': n, 'tail': ' 1', 'key': 'C05.deep_formula.' + kind})
-            cases.append({'kind': kind, 'n': n, 'cut': 1, 'key': 'C05.deep_formula.' + kind})
+            if n <= 4 or kind == 'longtext' or tier == 'thorough':
+                cases.append({'kind': kind, 'n': n, 'tail': ' 1', 'key': 'C05.deep_formula.' + kind})
+                cases.append({'kind': kind, 'n': n, 'cut': 1, 'key': 'C05.deep_formula.' + kind})
     return cases
 
 
@@ -1595,8 +1598,8 @@ def check_contexts(tier, rng):
                      + '), the second sheet; read from a well-formed entry cell directly / through areas / whole columns / criteria ranges / '
                        'the untaken IF branch / another sheet; one Parser object re-used over good, malformed, good workbooks (with and '
                        'without entry cell, get_translation called once or twice); same text on two sheets; array-formula cells; chains '
-                       '=1+1+...+1 of 20..' + ('4000' if tier == 'thorough' else '1000') + ' terms, SUM nested 1..12 deep, brackets '
-                       'nested 1..20 deep (CPU limit 5 s each), text literals of 10..5000 characters, each complete, with one trailing token, and cut by one character',
+                       '=1+1+...+1 of 20..' + ('4000' if tier == 'thorough' else '1000') + ' terms, SUM nested 1..6 deep, brackets '
+                       'nested 1..16 deep' + (' (and 8 / 20 / 64 deep)' if tier == 'thorough' else '') + ' under a CPU limit of 3 s each, text literals of 10..5000 characters, each complete, with one trailing token, and cut by one character',
             'rule': 'one evaluation = one scenario; a malformed text that is translated (whole file, or reachable from the entry cell) must '
                     'raise E2PyclParserException in every place and API order, a well-formed one must keep its value; a re-used Parser '
                     'must not hand out the previous translation after a rejection',
@@ -1605,9 +1608,11 @@ def check_contexts(tier, rng):
 
 
 # ====================================================================================================== check 6: generated formulas
-def gen_expr(rng, depth=0):
+def gen_expr(rng, depth=0, calls=0):
     """random well-formed expression text over the fixture whose value every operand influences (mostly)"""
     r = rng.random()
+    if calls >= 2 and r >= 0.72:
+        r = rng.random() * 0.72
     if depth >= 3 or r < 0.3:
         return rng.choice(['1', '2', '4', '8', '16', '0.5', '2.25', 'A1', 'A2', 'A3', 'B1', 'B4', '$A$4', "'T 2'!A1", 'S!B2', '32', '64', '3', '7'])
     if r < 0.55:
@@ -1621,13 +1626,13 @@ def gen_expr(rng, depth=0):
     if r < 0.9:
         f = rng.choice(['SUM', 'MAX', 'MIN', 'SUM', 'AVERAGE', 'COUNT'])
         n = rng.randrange(1, 6)
-        args = [gen_expr(rng, depth + 1) if rng.random() < 0.7 else rng.choice(['A1:A4', 'B1:B4', 'A1:B2', 'A2:B4', "'T 2'!A1:A2"]) for _ in range(n)]
+        args = [gen_expr(rng, depth + 1, calls + 1) if rng.random() < 0.7 else rng.choice(['A1:A4', 'B1:B4', 'A1:B2', 'A2:B4', "'T 2'!A1:A2"]) for _ in range(n)]
         return f + '(' + rng.choice(',;').join(args) + ')'
     if r < 0.96:
-        side = lambda: rng.choice(['A1', 'A3', 'B1', '2', '16', '(' + gen_expr(rng, depth + 1) + ')', 'SUM(A1:A4)'])  # noqa: E731
+        side = lambda: rng.choice(['A1', 'A3', 'B1', '2', '16', '(' + gen_expr(rng, depth + 1, calls + 1) + ')', 'SUM(A1:A4)'])  # noqa: E731
         c = side() + rng.choice(['<', '>', '=', '<>', '<=', '>=']) + side()
-        return 'IF(' + c + ',' + gen_expr(rng, depth + 1) + ',' + gen_expr(rng, depth + 1) + ')'
-    return 'ROUND(' + gen_expr(rng, depth + 1) + ',' + rng.choice('012') + ')'
+        return 'IF(' + c + ',' + gen_expr(rng, depth + 1, calls + 1) + ',' + gen_expr(rng, depth + 1, calls + 1) + ')'
+    return 'ROUND(' + gen_expr(rng, depth + 1, calls + 1) + ',' + rng.choice('012') + ')'
 
 
 def gen_text_expr(rng):
